@@ -228,3 +228,12 @@ def scan_randomness(src_dir):
             if isinstance(n, ast.Name) and n.id == "random":
                 problems.append("%s:%d uses the bare name random" % (rel, n.lineno))
     return sites, sorted(set(problems))
+
+
+if __name__ == "__main__":   # regenerate coq/Gen/GenCacheKey.v (needed before Props/C10.v can be built outside bin/check C10)
+    import sys
+    sys.path.insert(0, os.path.dirname(os.path.dirname(os.path.abspath(__file__))))
+    from vlib.common import SRC, COQ
+    fl, facts = read_cache_shape(SRC)
+    print(write_gen(fl, os.path.join(COQ, "Gen", "GenCacheKey.v")))
+    print("\n".join(facts))
